@@ -21,12 +21,13 @@ NOTE = {
  "C14": "As C08; strict exemption list <= 1 block in the relational obligations (in_alloca itself: <= 2 blocks).",
  "C15": "rustc/Kani/CBMC/CaDiCaL trusted; std verified through",
  "C16": "As C08; std containers' own panic-freedom assumed; frame depth < 2^64 - 1; 'standard devices attached' abstracted as arbitrary device results (device bodies not verified); run_with_limit covered only through the bounded C13 obligations.",
- "C19": "Bounded and partial: only the binary reader's slice helpers (<= 8 bytes). Not covered: BinaryFormat::deserialize as a whole, TextFormat::deserialize, re-serialization, link, load_obj_file.",
+ "C19": "Bounded and partial: the binary reader's slice helpers (<= 8 bytes), count_digits (complete), and copy_obj_block incl. wrapping blocks (concrete shapes). Not covered: BinaryFormat::deserialize as a whole, TextFormat::deserialize, re-serialization as a whole, link, load_obj_file's loop.",
  "C23": "Bounded: 1 label, one-letter name. That pass 1 builds the table correctly is assumed.",
  "C25": "Assumed: SourceInfo::from_string builds a strictly increasing newline table ending with the text length (str searching); get_line's contract in the Verus unit (checked bounded by Kani, <= 4 entries); String::len <= isize::MAX. Bounded: trimming in line_span/read_line (<= 4 ASCII bytes, <= 1 newline). Trusted: Verus/Z3/vstd, Kani/CBMC.",
  "C26": "Call sites (which spans each assembler/linker error carries; 'lies within the source') assumed, except replace_pc_offset's label span (thorough tier).",
  "C27": "As C08; debug frames: <= 1 prior frame, <= 2 parameters, no nested signature tables (HashMap<u16,_> lookups with a registered signature are not explored).",
  "C28": "As C08; observer map bounded (2 updates); what is recorded for device-page reads is not constrained (the property speaks of non-I/O addresses).",
+ "C29": "Bounded and partial: concrete start address and concrete S/N shape per obligation. Not covered: Simulator::load_obj_file (iteration over the object file's BTreeMap of blocks, external-symbol rejection, alloca list), registers/PC unchanged by load (copy_obj_block itself only receives the memory array), Simulator::new loading the OS image.",
  "C30": "new_with_mcr replaced by a recording stub (its body -- OS load, machine init -- is not verified here: 'equals a new simulator' holds by construction of reset calling it); io_reset per device slot bounded (4 slots).",
  "C32": "Device counts bounded (<= 5 slots, <= 2 requested ports); remove_device explored with arbitrary owners at two symbolic ports only; <SimDevice as ExternalDevice> calls replaced by slot-recording stubs; default-map L1 obligations in the thorough tier.",
  "C34": "Assumed: try_generate_time returns a value inside the configured range (rand crate); ranges must be subsets of [1, inf) for the interval lemma; same-seed reproducibility (rand) not claimed.",
@@ -43,7 +44,6 @@ NA = {
  "C21": "Relocation recording happens inside pass 1 (SymbolTable::new: HashMap<String,_> plumbing, not executable symbolically in useful time).",
  "C22": "Debug-symbol concatenation in DebugSymbols::link / label merge: String/BTreeMap plumbing out of reach of both tools.",
  "C24": "Line table is built inside pass 1 and LineSymbolMap (BTreeMap of blocks): out of reach of both tools in useful time.",
- "C29": "MemArray::copy_obj_block: symbolic-size copies over the 64K-word array ran out of memory (>40 GB) even with a concrete length of 2; Verus rejects chunk_by/iterator adapters.",
  "C31": "Determinism of two runs is relational over whole histories; the RNG (rand::StdRng) is an external crate.",
  "C33": "Quantifies over thread schedules; Kani has no thread support and Verus would need its permission types around RwLock.",
  "C36": "Display/format! followed by the logos DFA: text processing outside both tools.",
